@@ -175,6 +175,14 @@ class Model:
                 with open(path, encoding='utf-8') as f:
                     src = f.read()
             self.modules[m] = Module(m, path, src)
+        # tuple records (namedtuple / NamedTuple) are written as the plain tuples they are (records.py)
+        from .records import detuple
+        self.record_stats = detuple([m.tree for m in self.modules.values()])
+        if self.record_stats['creations'] or self.record_stats['reads']:
+            for m in self.modules.values():
+                for node in ast.walk(m.tree):
+                    for ch in ast.iter_child_nodes(node):
+                        ch._parent = node
         for m in self.modules.values():
             self._index_module(m)
         self._compute_mro()
